@@ -2,6 +2,7 @@ package main
 
 // Harness for the distributed key generation (properties C05, C01).
 //   dkg backend -seed N -tier quick|thorough -out FILE     real TBLS / TPS instances driven message by message
+//   dkg cancel  -seed N -tier quick|thorough -out FILE     cancellation matrix of the backend KeyGen (C11)
 //   dkg stack   -seed N -tier quick|thorough -out FILE     threshold.LoudScheme / SilentScheme over an in-memory network
 // One JSON object per line; every random choice derives from -seed.
 
@@ -64,6 +65,8 @@ func main() {
 	switch cmd {
 	case "backend":
 		runBackend(newPRNG(*seed), *tier == "thorough", *only)
+	case "cancel":
+		runCancel(newPRNG(*seed), *tier == "thorough")
 	case "stack":
 		runStack(newPRNG(*seed), *tier == "thorough", *only)
 	default:
